@@ -20,6 +20,7 @@ import Hm.C04Grammar
 import Hm.C03Whole
 import Hm.HeaderWf
 import Hm.PinnedWitnesses
+import Hm.Statements
 #print axioms C01_request_delivery_independent
 #print axioms C02_response_delivery_independent
 #print axioms C03_accept_sound
@@ -86,3 +87,5 @@ import Hm.PinnedWitnesses
 #print axioms C18_has_chunked_case
 #print axioms C18_header_tokens_case
 #print axioms C18_response_framing_case
+#print axioms C01_pinned_false
+#print axioms C01_pinned_witness
